@@ -4,6 +4,7 @@
   choice, and change nothing but the head flag.
 -/
 import TT.Spec.Transform
+import TT.Spec.HeadRulesPinned
 import TT.Lemmas.Sort
 import TT.Lemmas.Nav
 import TT.Lemmas.WF
@@ -162,5 +163,9 @@ theorem rules_presets_ok (t : Tree) :
 
 example : (match markHeadsByRules (some Preset.negra) none exNP with
     | .ok r => headTokens r | .error _ => []) = [[2], [3]] := by decide
+
+/-- the rule tables in the code are the pinned presets the property speaks about (regenerated table = pinned table) -/
+theorem presets_pinned :
+    Gen.HEAD_RULES_PTB = PINNED_HEAD_RULES_PTB ∧ Gen.HEAD_RULES_NEGRA = PINNED_HEAD_RULES_NEGRA := by decide +kernel
 
 end TT.Props.C15
